@@ -2,11 +2,12 @@
 # Run once after a fresh restore, offline.  ahbicht is pure Python and imported from /repo/src by every check,
 # so there is nothing to build; this only makes sure the test libraries are importable.
 PY="${VERIF_PYTHON:-/venv/bin/python}"
+HERE="$(cd "$(dirname "$0")" && pwd)"
 export PIP_NO_INDEX=1
 "$PY" -c "import hypothesis" 2>/dev/null || "$PY" -m pip install --quiet --no-index --find-links /opt/veriftools/wheels hypothesis || exit 1
 # optional: atheris for the coverage-guided stage of C02 (its absence only skips that stage)
-mkdir -p /verif/.deps
-PYTHONPATH=/verif/.deps "$PY" -c "import atheris" 2>/dev/null || \
-  "$PY" -m pip install --quiet --no-index --find-links /opt/veriftools/wheels --target /verif/.deps atheris >/dev/null 2>&1 || \
+mkdir -p "$HERE/.deps"
+PYTHONPATH="$HERE/.deps" "$PY" -c "import atheris" 2>/dev/null || \
+  "$PY" -m pip install --quiet --no-index --find-links /opt/veriftools/wheels --target "$HERE/.deps" atheris >/dev/null 2>&1 || \
   echo "note: atheris not installed; the optional fuzz stage of C02 will be skipped"
 "$PY" -c "import hypothesis, sys; sys.path.insert(0, '/repo/src'); import ahbicht.content_evaluation, ahbicht; print('setup ok: hypothesis', hypothesis.__version__, 'ahbicht from', ahbicht.__file__)"
